@@ -150,6 +150,9 @@ class Action {
 
     void cancelDispatchedCallback();
 
+    //! reset() 的次数：派生类在调用子动作的 start()/stop() 前后比较它，可得知其间的回调是否已 reset() 了本动作
+    inline unsigned resetCount() const { return reset_count_; }
+
   protected:
     event::Loop &loop_;
 
